@@ -159,7 +159,7 @@ def worker_extra():
 
 
 # ---------------------------------------------------------------------------------------------------------------------
-X_KINDS = ['term', 'rule', 'group', 'tpl']
+X_KINDS = ['term', 'rule', 'group', 'tpl', 'alt']
 
 if P and P.get('kind') == 'e2e':
     from lark import Lark, Tree as LTree, Token
@@ -177,6 +177,9 @@ if P and P.get('kind') == 'e2e':
             return 'start: x%s B?\nx: A\n%%declare A B\n' % rep, 1
         if XK == 'group':
             return 'start: (A C)%s B?\n%%declare A B C\n' % rep, 2
+        if XK == 'alt':
+            # a group with alternatives: every occurrence chooses its alternative independently (the input alternates A, C)
+            return 'start: (A | C)%s B?\n%%declare A B C\n' % rep, 1
         return 'start: rep{A} B?\nrep{t}: t%s\n%%declare A B\n' % rep, 1
 
     LARKS = {}
@@ -196,6 +199,8 @@ def _e2e_body(rec, pi, dk, tail):
     lk, w = LARKS[(n, m)]
     unit = [0, 2] if w == 2 else [0]
     ix = unit * k + ([1] if tail else [])
+    if XK == 'alt':
+        ix = [0 if i % 2 == 0 else 2 for i in range(k)] + ([1] if tail else [])
     tree = exc = None
     if REAL:
         with hs.untraced():
@@ -343,9 +348,18 @@ def plan(tier, seed):
     for x in X_KINDS:
         for parser in ('lalr', 'earley'):
             pairs = base if parser == 'lalr' or not quick else base[:11]
+            if x == 'alt':
+                # below lark's factoring threshold a repeated group with alternatives is expanded into 2^m alternatives (by design)
+                pairs = [p for p in pairs if p[1] <= 3 or p[1] >= 50]
             slices.append({'id': 'e2e:%s:%s' % (x, parser), 'func': 'e2e', 'mode': 'traced' if parser == 'lalr' else 'realised',
                            'params': {'kind': 'e2e', 'pairs': pairs, 'parser': parser, 'x': x, 'mode': 'traced' if parser == 'lalr' else 'realised'},
                            'timeout': 300 if quick else 1200, 'bound': {'pairs': len(pairs), 'k': 'n-1, n, m, m+1'}})
+    # x~n..m inside a terminal, through the scanners that match terminals themselves (dynamic Earley lexers): all class-strings
+    Lt = 4 if quick else 8
+    for lexer in ('dynamic', 'dynamic_complete'):
+        slices.append({'id': 'txt:reptok:%s:L%d' % (lexer, Lt), 'module': 'vfw.harness.txt', 'mode': 'realised',
+                       'params': {'g': 'reptok', 'parser': 'earley', 'lexer': lexer, 'L': Lt, 'asserts': ['member'], 'pin': None, 'mode': 'realised'},
+                       'timeout': 200 if quick else 1500, 'bound': {'chars': Lt, 'classes': 3}})
     lemmas = []
     mmax = 40 if quick else 70
     for inner in ('a', 'ab', '[ab]', 'a|bc', 'a+b', 'raw:a|b', 'raw:ab|c', 'raw:[ab]|c+'):
